@@ -9,9 +9,12 @@ EXTRA = {  # patches that are (also) expected to be caught by other checks
     "C18-d": ["C11"], "C02-d": ["C02", "C16"], "C09-c": ["C09", "C05", "C04"], "C09-d": ["C09", "C10"], "C10-d": ["C10", "C09"],
     "C02-f": ["C08"], "C05-f": ["C05", "C04"], "C07-f": ["C08"], "C10-f": ["C10", "C11"], "C14-f": ["C14", "C02"], "C18-e": ["C04"], "C09-f": ["C09", "C10"], "C11-f": ["C11", "C10"],
     "C05-h": ["C05", "C04"], "C18-h": ["C18", "C04"], "C14-h": ["C04"], "C09-g": ["C09", "C10"],
+    "C10-i": ["C01"], "C01-j": ["C13"], "C11-i": ["C11", "C10"],
 }
 # not a violation under the property as we read it (DESIGN.md 11.8): must stay silent
 EXPECT_SILENT = {("C07-d", "C07"), ("C14-g", "C14")}
+# wave 5 changes that no check decides (DESIGN.md 11.12): listed so that the matrix shows them; not counted as expected detections
+KNOWN_MISSED = {("C09-j", "C09"), ("C10-j", "C10")}
 only = sys.argv[sys.argv.index("--only") + 1] if "--only" in sys.argv else ""
 rows = []
 patches = sorted(glob.glob(f"{HOME}/mutations/*.diff")) + sorted(glob.glob(f"{HOME}/seeded/*/patch.diff"))
@@ -31,6 +34,6 @@ with open(f"{HOME}/DETECTION.md", "w") as f:
     f.write("| change | check | exit | first violation keys | s |\n|---|---|---|---|---|\n")
     for r in rows:
         f.write("| %s | %s | %s | %s | %s |\n" % r)
-    missed = [r for r in rows if (r[2] != 1) != ((r[0], r[1]) in EXPECT_SILENT)]
-    f.write("\n%d of %d (change, check) pairs as expected (C07-d and C14-g are expected to stay silent: undefined rounding ties, DESIGN.md 11.8 / 11.10); unexpected: %s\n" % (len(rows) - len(missed), len(rows), [(r[0], r[1], r[2]) for r in missed]))
-print("unexpected:", [(r[0], r[1], r[2]) for r in rows if (r[2] != 1) != ((r[0], r[1]) in EXPECT_SILENT)])
+    missed = [r for r in rows if (r[2] != 1) != ((r[0], r[1]) in EXPECT_SILENT) and (r[0], r[1]) not in KNOWN_MISSED]
+    f.write("\n%d of %d (change, check) pairs as expected (C07-d and C14-g are expected to stay silent: undefined rounding ties, DESIGN.md 11.8 / 11.10;; two wave-5 changes are not decided by any check: C09-j, C10-j, DESIGN.md 11.12); unexpected: %s\n" % (len(rows) - len(missed), len(rows), [(r[0], r[1], r[2]) for r in missed]))
+print("unexpected:", [(r[0], r[1], r[2]) for r in rows if (r[2] != 1) != ((r[0], r[1]) in EXPECT_SILENT) and (r[0], r[1]) not in KNOWN_MISSED])
